@@ -36,6 +36,7 @@ class PlanTracker:
             region, idx, tid, src = a
             lst = self.plans[region]
             pos = [i for i, t in enumerate(lst) if t[3] == tid]
+            if tid == -1 and 0 <= idx < len(lst) and lst[idx][3] == -1: pos = [idx]      # tasks without payload are told apart by position
             if not pos: viol('C07', 'remove|iteration-yielded-a-task-the-region-does-not-hold', {'region': region, 'id': tid, 'shadow': [t[3] for t in lst]})
             else: lst.pop(pos[0])
             return 'remove'
@@ -58,7 +59,7 @@ class PlanTracker:
                     viol('C07', 'iterate|%s-differs-from-tasks-appended|%s' % (what, which), {'region': r, 'expected': exp[:8], 'observed': list(tasks)[:8]})
             if r in dumps:
                 for t in dumps[r][1]:
-                    if t[3] in seen and seen[t[3]] != r: viol('C07', 'iterate|task-in-two-regions', {'id': t[3], 'regions': [seen[t[3]], r]})
+                    if t[3] != -1 and t[3] in seen and seen[t[3]] != r: viol('C07', 'iterate|task-in-two-regions', {'id': t[3], 'regions': [seen[t[3]], r]})
                     seen[t[3]] = r
     def restore(self, dumps):
         self.uncertain = False
